@@ -34,7 +34,8 @@ def obligations(seed, tier):
     from gemclus.gemini._utils import _str_to_gemini
     obs = []
     rs = np.random.RandomState(seed)
-    sizes = [(1300, 3)] if tier == "quick" else [(1300, 3), (2051, 4), (1025, 2)]
+    # n > 1024 samples; and more than 64 clusters with few samples (K*K > 4096 entries per sample, n barely above K)
+    sizes = [(1300, 3), (80, 66)] if tier == "quick" else [(1300, 3), (80, 66), (2051, 4), (1025, 2), (70, 70)]
     kinds = {"kl": "kl", "mi": "kl", "tv": "tv", "hellinger": "hellinger", "chi2": "chi2", "mmd": "mmd"}
     for n, K in sizes:
         X = rs.normal(size=(n, 2))
@@ -54,12 +55,16 @@ def obligations(seed, tier):
             # directional derivative along a random tangent direction (rows sum to zero)
             V = rs.normal(size=(n, K))
             V -= V.mean(1, keepdims=True)
-            h = 1e-6
-            fd = (float(g(P + h * V, A)) - float(g(P - h * V, A))) / (2 * h)
+            # two step sizes: the Richardson value is compared with the gradient, the gap between the two estimates bounds the
+            # error of the differences themselves (small probabilities have large higher derivatives)
+            h = min(1e-6, 0.01 * float(P.min()) / (1e-12 + float(np.abs(V).max())))
+            fd1 = (float(g(P + h * V, A)) - float(g(P - h * V, A))) / (2 * h)
+            fd2 = (float(g(P + h / 2 * V, A)) - float(g(P - h / 2 * V, A))) / h
+            fd = (4 * fd2 - fd1) / 3
             an = float((gr * V).sum())
             if name not in ("tv_ova", "tv_ovo"):
-                ok = ok and abs(fd - an) <= 1e-4 * (1 + abs(fd) + abs(an))
-                det.update(finite_difference=fd, from_gradient=an)
+                ok = ok and abs(fd - an) <= 1e-4 * (1 + abs(fd) + abs(an)) + 10 * abs(fd2 - fd1)
+                det.update(finite_difference=fd, from_gradient=an, difference_error_estimate=abs(fd2 - fd1))
             obs.append(Ob(f"large n: {name} at n={n}, K={K}: score == reference, invariant under reordering, gradient matches central differences",
                           PROVED if ok else REFUTED, "native-float64", "B", {**det, "replayed": True}, fn="gemclus.gemini.evaluate"))
     # many clusters: n * K^2 beyond 2^20 entries with n not a multiple of a power of two (block-wise evaluations of the (n, K, K) tensors);
